@@ -35,9 +35,14 @@ func init() {
 			"and whose result flows - through interface boxing, phis and math.Round/Floor/Ceil/Trunc - into a return that reports the constant sql.InRange is exact: the one-variable " +
 			"interval of its operand under the dominating branch conditions lies inside the target type; (V2) in every arm selected by `t.baseType == sqltypes.X`, a value returned as " +
 			"InRange lies inside the SQL range of X (INT24/UINT24 are narrower than their Go carrier int32/uint32; YEAR is 0 or 1901..2155); (V0) every sql.Type.Convert implementation " +
-			"answers a nil input with (nil, InRange, nil) before any other use of the value. A violated V1/V2 instance stores a different value than the one given while reporting 'in range'.",
-		NotCovered: "string truncation, temporal parsing, DECIMAL precision/scale, enum/set membership, idempotence of Convert, rounding direction, NaN, conversions whose result is handed to another conversion instead of being returned, the INSERT IGNORE warning path",
-		Technique:  "SSA + one-variable interval domain over dominating branch conditions (interval engine) + sibling nil-guard engine",
+			"answers a nil input with (nil, InRange, nil) before any other use of the value. A violated V1/V2 instance stores a different value than the one given while reporting 'in range'. " +
+			"Constant-table clause for the temporal types (read from composite literals and initialisers with go/constant): (T1) the decimal-digit tables indexed by a fractional-second precision - " +
+			"precisionConversion (indexed by datetimeType.precision, divisor of time.Second in ConvertToTime) and powersOfTen of appendMicroseconds - have entry[i] == 10^i, MaxDatetimePrecision+1 entries, last entry == " +
+			"time.Second/time.Microsecond, are only read by indexing and precisionConversion only by the precision field as divisor of time.Second; (T2) the TIME unit scalars equal the ratios of package time's " +
+			"constants (microsecondsPerSecond/Minute/Hour, nanosecondsPerMicrosecond), timespanMaximum is 838:59:59 in microseconds, timespanMinimum its negation, and none of these variables is assigned or address-taken; " +
+			"(T3) ZeroTimestampDatetimeStrs[p] is the zero datetime with exactly p fractional zeros. A violated T1/T2 entry rounds or scales a representable temporal value to a different one without error or warning.",
+		NotCovered: "string truncation (and the TEXT/BLOB length limits), temporal parsing, DECIMAL precision/scale (computed with apd, no table), enum/set membership, idempotence of Convert, rounding direction, NaN, conversions whose result is handed to another conversion instead of being returned, the INSERT IGNORE warning path, literal factors written inline (t.Nanosecond()/1000, hours > 838) instead of through the anchored tables and scalars",
+		Technique:  "SSA + one-variable interval domain over dominating branch conditions (interval engine) + sibling nil-guard engine + constant tables folded with go/constant and who-may-write over go/types",
 		Run: func(c *Ctx) {
 			rels := []string{}
 			for _, pk := range c.P.Module {
@@ -45,6 +50,7 @@ func init() {
 			}
 			runC27(c, c27Config{Rel: "sql/types", SibRels: rels, IfaceRel: "sql", Iface: "Type", ConvertM: "Convert", FlagType: "ConvertInRange", InRange: "InRange",
 				BaseConsts: "github.com/dolthub/vitess/go/sqltypes", Floors: [3]int{56, 30, 16}})
+			runC27T(c, c27TDefault())
 		},
 		Fixture: func(c *Ctx, fx *Prog) {
 			expectFixture(c, fx, "c27: wrong bound, missing lower bound, float boundary, 24-bit arm using the 32-bit range, Convert without nil clause",
@@ -60,8 +66,29 @@ func init() {
 					runC27(fc, c27Config{Rel: "testdata/c27/conv", SibRels: []string{"testdata/c27/conv"}, IfaceRel: "testdata/c27/conv", Iface: "Type", ConvertM: "Convert",
 						FlagType: "ConvertInRange", InRange: "InRange", BaseConsts: "vchk/testdata/c27/conv"})
 				})
+			expectFixture(c, fx, "c27t: wrong precision-5 divisor, short table indexed by a non-precision value, overwritten entry, wrong unit scalar / range, written unit, zero strings with a wrong digit count",
+				[]string{
+					"C27-T1:precisionConversion[5]",
+					"C27-T1:shortTable/len",
+					"C27-T1:shortTable/last",
+					"C27-T1:shortTable/use",
+					"C27-T1:appendMicroseconds.powersOfTen/use",
+					"C27-T2:microsecondsPerMinute/value",
+					"C27-T2:timespanMaximum/value",
+					"C27-T2:timespanMinimum/value",
+					"C27-T2:nanosecondsPerMicrosecond/immutable",
+					"C27-T3:ZeroTimestampDatetimeStrs[4]",
+					"C27-T3:ZeroTimestampDatetimeStrs/len",
+				},
+				func(fc *Ctx) {
+					cfg := c27TDefault()
+					cfg.Rel = "testdata/c27/tables"
+					cfg.Floors = [3]int{}
+					cfg.Pow10 = append(cfg.Pow10, c27TPow10{Var: "shortTable", IndexField: [2]string{"datetimeType", "precision"}, Dividend: [2]string{"time", "Second"}, Last: [4]string{"time", "Second", "time", "Microsecond"}})
+					runC27T(fc, cfg)
+				})
 		},
-		FixturePkgs: []string{"./testdata/c27/conv"},
+		FixturePkgs: []string{"./testdata/c27/conv", "./testdata/c27/tables"},
 	})
 }
 
